@@ -364,7 +364,7 @@ func init() {
 	eng.Register(&eng.Scenario{
 		Name: "keyed-history", Props: []string{"C06"}, QuickOnly: true, Det: true, Manual: true, NoRace: true, ObsNames: ops,
 		Doc:   "Keyed: every sequence of 5 operations over {SetKey(a|b,start f|t), RemoveKey(a|b), SyncKeys({},{a},{b},{a,b},{a,a,b}+restart), FireEarliestTimer} x release delay {0,d} x context {unset,set} x routine script {blocks, returns nil, returns error}; after every operation GetKeys/GetKey/GetKeysWithData and the call's results are compared with a reference model; finally every armed delay expires",
-		Quick: eng.Bounds{PB: 0}, Thorough: eng.Bounds{PB: 0},
+		Quick: eng.Bounds{PB: 0, Cap: 8000000}, Thorough: eng.Bounds{PB: 0},
 		Body:  keyedHistory(5),
 	})
 	eng.Register(&eng.Scenario{
@@ -376,7 +376,7 @@ func init() {
 	eng.Register(&eng.Scenario{
 		Name: "keyedref-history", Props: []string{"C06"}, QuickOnly: true, Det: true, Manual: true, NoRace: true, ObsNames: ops,
 		Doc:   "KeyedRefCount: every sequence of 6 operations over {AddKeyRef(a|b), Release(ref 0|1|2) (repeatable), RemoveKey(a|b), FireEarliestTimer} x delay x context x script, compared with a reference model (reference multiset + key set)",
-		Quick: eng.Bounds{PB: 0}, Thorough: eng.Bounds{PB: 0},
+		Quick: eng.Bounds{PB: 0, Cap: 8000000}, Thorough: eng.Bounds{PB: 0},
 		Body:  keyedRefHistory(6),
 	})
 	eng.Register(&eng.Scenario{
